@@ -20,7 +20,8 @@ EXTENDS Dispatch
 
 CONSTANTS MinProms, MaxProms,   \* number of Prometheus servers explored (0..2)
           Layouts,       \* subset of 0..4: block layouts explored
-          PreIds,        \* subset of 0..1: pre-existing checks { disabled = [...] } content
+          PreIds,        \* subset of 0..2: 0 nothing, 1 pre-existing checks { disabled = [...] }, 2 a first rule{} block
+                         \*   that enables every check by name (rule { enable = [...] })
           Pairs,         \* BOOLEAN: also pairs of names for the list mechanisms
           Commands       \* subset of {"lint", "ci"}
 
@@ -43,7 +44,8 @@ Layout(n) ==
                         KV("aggregate_keep", 2), KV("annotation", 2), KV("label", 2), KV("link", 2), KV("name", 2)>>, FALSE)>>
 
 \* pre-existing checks { disabled = [...] }
-PreDisabled == {IF n = 0 THEN <<>> ELSE <<"promql/rate", "rule/for">> : n \in PreIds}
+PreDisabledList(n) == IF n = 1 THEN <<"promql/rate", "rule/for">> ELSE <<>>
+EnableAllBlock == [kinds |-> <<>>, enable |-> CheckNames, disable |-> <<>>, locked |-> FALSE, match |-> <<>>, ignore |-> <<>>, marker |-> ""]
 
 \* mechanisms
 DisableMechs == {"cfgDisabled", "cliDisabled", "ruleDisable"}
@@ -58,39 +60,45 @@ CliRegexps == { [form |-> "pre", a |-> "promql/", b |-> ""], [form |-> "pre", a 
                 [form |-> "has", a |-> "e/r", b |-> ""], [form |-> "pre", a |-> "promql/range", b |-> ""],
                 [form |-> "lit", a |-> "for", b |-> ""] }
 
-VARIABLES phase,   \* "proms" | "layout" | "pre" | "mech" | "eval"
+VARIABLES pre,     \* chosen PreIds element
+          phase,   \* "proms" | "layout" | "pre" | "mech" | "eval"
           cfg,     \* scenario configuration (base run)
           layout,  \* layout id (for the case record)
           mech,    \* chosen mechanism
           args,    \* Seq of patterns (names are lit patterns)
           cmd      \* pint command
-vars == <<phase, cfg, layout, mech, args, cmd>>
+vars == <<pre, phase, cfg, layout, mech, args, cmd>>
 
 Cfg0 == [proms |-> <<>>, blocks |-> <<>>, enabled |-> <<>>, disabled |-> <<>>]
 
-Init == phase = "proms" /\ cfg = Cfg0 /\ layout = 0 /\ mech = "none" /\ args = <<>> /\ cmd = "lint"
+Init == pre = 0 /\ phase = "proms" /\ cfg = Cfg0 /\ layout = 0 /\ mech = "none" /\ args = <<>> /\ cmd = "lint"
 
 AddProm ==
   /\ phase = "proms" /\ Len(cfg.proms) < MaxProms
   /\ cfg' = [cfg EXCEPT !.proms = Append(cfg.proms, PromPool[Len(cfg.proms) + 1])]
-  /\ UNCHANGED <<phase, layout, mech, args, cmd>>
+  /\ UNCHANGED <<pre, phase, layout, mech, args, cmd>>
 
-PromsDone == phase = "proms" /\ Len(cfg.proms) >= MinProms /\ phase' = "layout" /\ UNCHANGED <<cfg, layout, mech, args, cmd>>
+PromsDone == phase = "proms" /\ Len(cfg.proms) >= MinProms /\ phase' = "layout" /\ UNCHANGED <<pre, cfg, layout, mech, args, cmd>>
 
 ChooseLayout(n) ==
   /\ phase = "layout"
   /\ cfg' = [cfg EXCEPT !.blocks = Layout(n)] /\ layout' = n /\ phase' = "pre"
-  /\ UNCHANGED <<mech, args, cmd>>
+  /\ UNCHANGED <<pre, mech, args, cmd>>
 
-ChoosePre(d, c) ==
+ChoosePre(n, c) ==
   /\ phase = "pre"
-  /\ cfg' = [cfg EXCEPT !.disabled = d] /\ cmd' = c /\ phase' = "mech"
+  /\ cfg' = IF n = 2 THEN [cfg EXCEPT !.blocks = <<EnableAllBlock>> \o cfg.blocks] ELSE [cfg EXCEPT !.disabled = PreDisabledList(n)]
+  /\ pre' = n /\ cmd' = c /\ phase' = "mech"
   /\ UNCHANGED <<layout, mech, args>>
 
+\* with the enable-everything block in front, checks{disabled} / --disabled / --offline are overridden by it
+\* (docs/configuration.md: "Enabling checks here will overwrite check { disable = [...] } settings"): only the
+\* mechanisms that must still work are generated there
 ChooseMech(m, a) ==
   /\ phase = "mech"
+  /\ (pre = 2 => m \in {"ruleDisable", "cfgEnabled", "cliEnabled"})
   /\ mech' = m /\ args' = a /\ phase' = "eval"
-  /\ UNCHANGED <<cfg, layout, cmd>>
+  /\ UNCHANGED <<pre, cfg, layout, cmd>>
 
 NamePatterns == {<<Lit(n)>> : n \in NameSet}
 PairPatterns == IF Pairs THEN {<<Lit(n), Lit(m)>> : <<n, m>> \in {p \in NameSet \X NameSet : p[1] # p[2]}} ELSE {}
@@ -98,7 +106,7 @@ PairPatterns == IF Pairs THEN {<<Lit(n), Lit(m)>> : <<n, m>> \in {p \in NameSet 
 Next ==
   \/ AddProm \/ PromsDone
   \/ \E n \in Layouts : ChooseLayout(n)
-  \/ \E d \in PreDisabled, c \in Commands : ChoosePre(d, c)
+  \/ \E n \in PreIds, c \in Commands : ChoosePre(n, c)
   \/ \E m \in ListMechs, a \in NamePatterns \cup PairPatterns : ChooseMech(m, a)
   \/ \E re \in CliRegexps : ChooseMech("cliDisabled", <<re>>)
   \/ \E a \in NamePatterns : /\ ReSrc(a[1]) \notin Range(cfg.disabled)   \* rule{enable=[N]} over checks{disabled=[N]}
@@ -177,7 +185,7 @@ Inv_Registry ==
                  \cup {CfgRows[i].reg : i \in DOMAIN CfgRows}
 
 \* GEN: one case per evaluated input
-CaseRec == [layout |-> layout, nproms |-> Len(cfg.proms), cmd |-> cmd, mech |-> mech, args |-> args, argsrc |-> ArgNames(args),
+CaseRec == [layout |-> layout, pre |-> pre, nproms |-> Len(cfg.proms), cmd |-> cmd, mech |-> mech, args |-> args, argsrc |-> ArgNames(args),
             bcfg |-> cfg, vcfg |-> VariantCfg(cfg, mech, args), vflags |-> VariantFlags(mech, args)]
 EmitCase == phase # "eval" \/ PrintT(<<"CASE", ToJson(CaseRec)>>)
 =============================================================================
